@@ -29,7 +29,10 @@ func (a *Activation) step(st *State, ins ssa.Instruction) {
 		if !ins.Heap && len(g.localProt) < 600 {
 			// a local whose address does not escape (go/ssa's analysis): no callee can
 			// reach it, its cells keep their values across calls
-			g.localProt = append(g.localProt, a.leafLocs(loc, elemT)...)
+			for _, pl := range a.leafLocs(loc, elemT) {
+				pl.alloc = ins
+				g.localProt = append(g.localProt, pl)
+			}
 		}
 	case *ssa.Store:
 		addr := a.val(st, ins.Addr)
